@@ -33,6 +33,7 @@ type Batch struct {
 	CompErrs map[string]string // package -> compiler messages
 	Built    []string          // packages in the binary
 	div      map[string]int    // parser -> number of parses the watchdog had to stop
+	raceBin  string
 }
 
 var batchCounter int
@@ -128,7 +129,7 @@ func (b *Batch) writeMain(names []string) error {
 		obj[s.Name] = s.Object
 	}
 	for _, n := range names {
-		fmt.Fprintf(&sb, "\tengbrt.Register(&engbrt.Parser{Name: %q, Object: %v, New: %s.VNew, Init: %s.VInit, Parse: %s.VParse, Action: %s.VAction, Translate: %s.VTranslate, Consts: %s.VConsts, Trace: %s.VTrace, ErrAcc: %s.VErrAcc,\n\t\tSetHooks: func(n func(int) (int, int), r func(int)) { %s.HookNext = n; %s.HookRec = r }})\n",
+		fmt.Fprintf(&sb, "\tengbrt.Register(&engbrt.Parser{Name: %q, Object: %v, New: %s.VNew, Init: %s.VInit, Parse: %s.VParse, Action: %s.VAction, Translate: %s.VTranslate, Consts: %s.VConsts, Trace: %s.VTrace, ErrAcc: %s.VErrAcc,\n\t\tSetHooks: func(n func(string, int) (int, int), r func(int)) { %s.HookNext = n; %s.HookRec = r }})\n",
 			n, obj[n], n, n, n, n, n, n, n, n, n, n)
 	}
 	sb.WriteString("\tengbrt.Main()\n}\n")
@@ -293,4 +294,48 @@ func innerP() string {
 		return v
 	}
 	return "3"
+}
+
+// RunRace builds (once) a second driver binary with the race detector and runs the jobs through it. It returns the
+// results and what the race detector printed.
+func (b *Batch) RunRace(jobs []engbrt.Job) ([]engbrt.JobResult, string, error) {
+	if b.raceBin == "" {
+		bin := filepath.Join(b.Dir, "driver.race.bin")
+		cmd := exec.Command("go", "build", "-race", "-p", innerP(), "-tags", "verif", "-o", bin, "./verifsim/gen/"+filepath.Base(b.Dir))
+		cmd.Dir = b.ModRoot
+		var out bytes.Buffer
+		cmd.Stdout, cmd.Stderr = &out, &out
+		if err := cmd.Run(); err != nil {
+			return nil, "", fmt.Errorf("race build failed: %v\n%s", err, tail(out.String(), 2000))
+		}
+		b.raceBin = bin
+	}
+	batchCounter++
+	jf := filepath.Join(b.Dir, fmt.Sprintf("rjobs-%d.json", batchCounter))
+	rf := filepath.Join(b.Dir, fmt.Sprintf("rresults-%d.json", batchCounter))
+	jb, err := json.Marshal(jobs)
+	if err != nil {
+		return nil, "", err
+	}
+	if err := os.WriteFile(jf, jb, 0o644); err != nil {
+		return nil, "", err
+	}
+	cmd := exec.Command(b.raceBin, jf, rf)
+	cmd.Env = append(os.Environ(), "GORACE=halt_on_error=0 exitcode=0")
+	var out bytes.Buffer
+	cmd.Stdout, cmd.Stderr = &out, &out
+	if err := cmd.Run(); err != nil {
+		return nil, out.String(), fmt.Errorf("race driver died: %v\n%s", err, tail(out.String(), 3000))
+	}
+	rb, err := os.ReadFile(rf)
+	if err != nil {
+		return nil, out.String(), err
+	}
+	var res []engbrt.JobResult
+	if err := json.Unmarshal(rb, &res); err != nil {
+		return nil, out.String(), err
+	}
+	os.Remove(jf)
+	os.Remove(rf)
+	return res, out.String(), nil
 }
